@@ -24,7 +24,7 @@ RULE = ('sets of 1-4 concurrently stepping processes with async steps (interleav
 ASSUMPTIONS = ['samples in ProcessListener callbacks are not part of the statement (recorded only)',
                'nested execution relies on nest_asyncio as configured by plumpy.set_event_loop_policy()']
 REQUIRED = ['samples/step', 'samples/hook', 'samples/callback', 'samples/outside', 'concurrent_runs', 'nested_runs', 'children', 'where/after-await',
-            'where/after-launch', 'where/after-nested', 'where/after-inline', 'outside_runner']
+            'where/after-launch', 'where/after-nested', 'where/after-inline', 'outside_runner', 'parent_controlled_by_child']
 BOUNDS = {'quick': '150 random concurrent sets + 24 nested scenarios', 'thorough': '1500 random concurrent sets + 200 nested scenarios'}
 TIMEOUT = {'quick': 900, 'thorough': 3600}
 
@@ -88,6 +88,14 @@ def gen_cases(tier, seed):
                 inline_top = [False, True]
             cases.append({'kind': 'concurrent', 'scripts': scripts, 'plan': [], 'qplan': [[-1 if parent_kind != 'top-inline' else 0, a[0]] for a in qplan],
                           'inline_top': inline_top, 'wait': False})
+    # a child controls (pauses / plays / kills) its parent from inside its own step while the parent is not stepping
+    for ctl in (['kill'], ['pause', 'play'], ['pause', 'kill'], ['pause'], ['play']):
+        for parent_prep in ([], [['pause']], [['pause'], ['play']]):
+            child = {'segments': [[['sample', 'c0'], ['wait']], [[('parent_ctl' if True else ''), c] for c in ctl] + [['yield'], ['sample', 'c1']]]}
+            parent = {'segments': [[['launch', child], ['sample', 'launched'], ['wait']], [['sample', 'resumed'], ['await_children']]]}
+            # quiescent plan: prepare the parent (index 0), then wake the child (index 1) which acts on the parent
+            qplan = [[0, a[0]] for a in parent_prep] + [[1, 'resume']]
+            cases.append({'kind': 'concurrent', 'scripts': [parent], 'plan': [], 'qplan': qplan, 'inline_top': [False], 'wait': False})
     m = 24 if tier == 'quick' else 200
     for i in range(m):
         k = rng.randint(1, 2)
@@ -125,6 +133,7 @@ def _obs(log, outside):
         if kind == 'listener' and not ok:
             obs['listener_not_current'] += 1
     obs['outside_runner'] = sum(1 for w, _c in outside if w == 'runner-after')
+    obs['parent_controlled_by_child'] = sum(1 for _n, kind, where, _ok, _c in log if kind == 'step' and 'after-parent-' in where)
     obs['children'] = sum(1 for n in names if '.' in n)
     obs['processes'] = len(names)
     return obs, names
@@ -185,7 +194,7 @@ def run_concurrent(case):
                     idx, act = qplan.pop(0)
                     target = allp[idx]
                     try:
-                        getattr(target, act)(*([] if act == 'play' else ['m']))
+                        getattr(target, act)(*([] if act in ('play', 'resume') else ['m']))
                     except Exception:  # noqa: BLE001
                         pass
                     cur = plumpy.Process.current()
